@@ -38,6 +38,27 @@ func init() {
 	})
 }
 
+// cleanStackedRules cleans the rules of the stacked profile itself. The lines
+// of a sub-profile or hat it contains are rules of that block and are kept:
+// only empty lines (the last entry of the list) are removed everywhere.
+func cleanStackedRules(rules string, clean util.RegexReplList) string {
+	last := len(clean) - 1
+	depth := 0
+	lines := strings.Split(rules, "\n")
+	for idx, line := range lines {
+		trimmed := strings.TrimSpace(line)
+		switch {
+		case strings.HasSuffix(trimmed, "{") && !strings.HasPrefix(trimmed, "#"):
+			depth++
+		case trimmed == "}":
+			depth--
+		case depth == 0:
+			lines[idx] = clean[:last].Replace(line)
+		}
+	}
+	return clean[last:].Replace(strings.Join(lines, "\n"))
+}
+
 func (s Stack) Apply(opt *Option, profile string) (string, error) {
 	if len(opt.ArgList) == 0 {
 		return "", fmt.Errorf("no profile to stack")
@@ -66,7 +87,7 @@ func (s Stack) Apply(opt *Option, profile string) (string, error) {
 			return "", fmt.Errorf("no profile found in %s", name)
 		}
 		stackedRules := m[1]
-		stackedRules = regCleanStakedRules.Replace(stackedRules)
+		stackedRules = cleanStackedRules(stackedRules, regCleanStakedRules)
 		res += "  # Stacked profile: " + name + "\n" + stackedRules + "\n"
 	}
 
